@@ -28,6 +28,10 @@ def main():
     crates = sorted({f.split('/')[0] for f in files if f.startswith('pallas')})
     meta = {'property': cid, 'files_changed': files, 'crates': crates, 'evaluated_at': time.strftime('%Y-%m-%dT%H:%M:%SZ', time.gmtime())}
     sh('git checkout -- . ', cwd=wt)
+    # evaluate against the current /repo HEAD (later fix commits included)
+    head = subprocess.check_output(['git', '-C', '/repo', 'rev-parse', 'HEAD'], text=True).strip()
+    sh(f'git checkout -q --detach {head}', cwd=wt)
+    meta['repo_head'] = head[:10]
     rc, out = sh(f'git apply --check {patch} && git apply {patch}', cwd=wt)
     meta['patch_applies'] = rc == 0
     if rc != 0:
